@@ -99,6 +99,9 @@ reg = {
         "tableverify": {"overlay": "units/tableverify.ovl", "canaries": ["canary_tableverify"],
                         "helpers": ["clone", "get_page", "new", "verify_checksum", "fixed_width", "fixed_width_with", "next", "parse_subtree_roots", "value", "range", "hint"]},
         # the release of a deleted table's pages (fragment of TableTreeMut::delete_table)
+        "splice": {"overlay": "units/splice.ovl", "canaries": ["canary_splice"],
+                   "helpers": ["drop", "into_iter", "rev", "next", "get_page_number", "new", "key", "replace_branch_child", "rebuild_branch_level", "build_branch_nodes",
+                               "conditional_free", "compare", "fixed_width"]},
         "mmremove": {"overlay": "units/mmremove.ovl", "canaries": ["canary_mmremove"],
                      "helpers": ["lock", "drop", "borrow", "fixed_width", "memory", "new", "total_length", "num_pairs", "make_inline_data", "make_subtree_data", "insert", "remove",
                                  "get_root", "ignore", "conditional_free", "get_page_size", "get_page"]},
@@ -278,13 +281,14 @@ P["C10"] = {
               {"unit": "search", "functions": ["BranchAccessor::child_for_key", "LeafAccessor::position"]},
               {"unit": "rootupd", "functions": ["MutateHelper::finish_deletion", "MutateHelper::delete_key"]},
               {"unit": "bigpair", "functions": ["MutateHelper::insert_beside_large_value"]},
-              {"unit": "mmremove", "functions": ["MultimapTable::write_back_subtree"]}],
+              {"unit": "mmremove", "functions": ["MultimapTable::write_back_subtree"]},
+              {"unit": "splice", "functions": ["MutateHelper::splice_path", "PathVec::into_iter", "PathIter::rev", "PathRev::next"]}],
     "kani": [K["C10-F1"], K["C10-F2"], K["C10-F3"], K["C10-F4"], K["C10-F6a"], alias("C11-R3", "C10-F6b"), alias("C06-K2", "C10-F6c"),
              alias("C07-K1s", "C10-F6d"), alias("C04-L1f", "C10-P1f"), alias("C04-L1v", "C10-P1v")],
     "native": [dict(NATIVE["X-leafmut4"], id="C10-X-leafmut4")],
-    "explanation": "(V) checksum discipline of the mutator, verified on the REAL MutateHelper::replace_branch_child and finalize_branch_builder: a redirected child pointer always carries the DEFERRED checksum (recomputed at commit) - in place only on a page this transaction allocated, otherwise in a copy that differs from the original in exactly that pointer; a branch reduced to one child hands that child up WITH the checksum it carried, and when that child is merged into the sibling branch (fragment of apply_child_deletion_result) it is carried over with that same checksum on the correct side; an under-full branch is handed up unbuilt with children, checksums and keys untouched. (S) separator bounds on the REAL fast path of insert_helper for a leaf holding one huge pair: the two leaves are handed up in key order, the untouched one with its old checksum and the new one DEFERRED, and left <= separator < right (given branch_separator's contract, proved for the built-in key types in unit types_sep). Kernel = format conformance: every fixed-size encoder (page number, tree header, commit slot, database header, freed-page key, allocator-state key, savepoint record, page list) writes exactly the byte layout of docs/design.md (offsets are literals transcribed from the document, not the code's constants) - complete, loop-free; leaf pages: offsets tables, entries and the checksummed prefix - bounded; (M) the REAL write-back of a multimap value subtree after a removal stores the subtree's root together with the checksum the subtree reported for it (never a stale or zero one); (B, bounded native) the in-place leaf mutations leave exactly the bytes a rebuilt leaf would have, so the checksum of a mutated leaf is that of the rebuilt one.",
+    "explanation": "(V) checksum discipline of the mutator, verified on the REAL MutateHelper::replace_branch_child and finalize_branch_builder: a redirected child pointer always carries the DEFERRED checksum (recomputed at commit) - in place only on a page this transaction allocated, otherwise in a copy that differs from the original in exactly that pointer; a branch reduced to one child hands that child up WITH the checksum it carried, and when that child is merged into the sibling branch (fragment of apply_child_deletion_result) it is carried over with that same checksum on the correct side; an under-full branch is handed up unbuilt with children, checksums and keys untouched. (S) separator bounds on the REAL fast path of insert_helper for a leaf holding one huge pair: the two leaves are handed up in key order, the untouched one with its old checksum and the new one DEFERRED, and left <= separator < right (given branch_separator's contract, proved for the built-in key types in unit types_sep). Kernel = format conformance: every fixed-size encoder (page number, tree header, commit slot, database header, freed-page key, allocator-state key, savepoint record, page list) writes exactly the byte layout of docs/design.md (offsets are literals transcribed from the document, not the code's constants) - complete, loop-free; leaf pages: offsets tables, entries and the checksummed prefix - bounded; (M) the REAL write-back of a multimap value subtree after a removal stores the subtree's root together with the checksum the subtree reported for it (never a stale or zero one); (S) the REAL upward walk of a cursor insert (fragment of MutateHelper::splice_insert_run, experimental_cursor): a replacement node is hung under an ancestor by pointer swap only if the separator stored for the slot bounds it; a bound that was raised keeps travelling upward through slots that store no separator (last children) until a level stores one, where it is compared again; otherwise the level is rebuilt; the new root header has the deferred checksum and the old count plus the inserted pairs; replaced pages are released only after every fallible step, the replaced leaf first; (B, bounded native) the in-place leaf mutations leave exactly the bytes a rebuilt leaf would have, so the checksum of a mutated leaf is that of the rebuilt one.",
     "not_decided": "strictly increasing keys, separator bounds, equal depth, stored counts, no page referenced twice (invariants of btree_mutator.rs over histories); branch pages (probed: too expensive for CBMC); XXH3-128 being XXH3-128",
-    "assumptions": ["K1 (cow unit): a branch page is the sequence of its (child page, checksum) pointers; BranchBuilder::build allocates a fresh page of this transaction holding exactly the pointers pushed (built_children, a function of the page number); get_page_mut records what is written through the handle against the page; the separator keys are not modelled", "M3 (mmremove unit): the outer tree is the log of what was stored / removed under a key (a failing call logs nothing); a page is a function of its number while the fragment runs and a page named by a tree header starts with the LEAF or BRANCH tag; LeafAccessor reports the stored pair count and a length that does not exceed the page; the inline and subtree encodings are uninterpreted functions of what they encode (layout: Kani C09-K1/K2); conditional_free logs the page and the identity of the allocation record it was offered against (verified itself in unit alloc); the shared queue and record are held by value",
+    "assumptions": ["K1 (cow unit): a branch page is the sequence of its (child page, checksum) pointers; BranchBuilder::build allocates a fresh page of this transaction holding exactly the pointers pushed (built_children, a function of the page number); get_page_mut records what is written through the handle against the page; the separator keys are not modelled", "S1 (splice unit): hi(page) is the greatest key of the subtree of a page (ghost); the pointer swap replace_branch_child carries the routing obligation as its PRECONDITION (a child is hung into a slot that stores a separator only if the separator bounds the child) and yields a page with the greatest key of its last child; rebuild_branch_level and build_branch_nodes rebuild a level from fresh pages and keep the bounds of the nodes true (assumed: BranchBuilder plumbing and iterator adapters); the path is distinct live pages satisfying the routing invariant before the splice; K::compare is some total order; Option::as_deref / mem::take as in std; the path iterator `into_iter().rev()` is a model whose next() is verified to yield the entries last first (rule R18: the for loop contains a continue)", "M3 (mmremove unit): the outer tree is the log of what was stored / removed under a key (a failing call logs nothing); a page is a function of its number while the fragment runs and a page named by a tree header starts with the LEAF or BRANCH tag; LeafAccessor reports the stored pair count and a length that does not exceed the page; the inline and subtree encodings are uninterpreted functions of what they encode (layout: Kani C09-K1/K2); conditional_free logs the page and the identity of the allocation record it was offered against (verified itself in unit alloc); the shared queue and record are held by value",
                     "docs/design.md lists '40 bytes: padding' before the transaction id of a commit slot; the fields then sum to 136 bytes, not 128. The oracle uses 32 bytes of padding (transaction id at 104, checksum at 112), the only reading consistent with the stated slot size; the document, not the code, is off by 8."],
 }
 P["C04"] = {
@@ -294,7 +298,8 @@ P["C04"] = {
               {"unit": "guardmut", "functions": ["AccessGuardMut::rebuild_leaf"]},
               {"unit": "rootupd", "functions": ["MutateHelper::finish_deletion", "MutateHelper::delete_key", "MutateHelper::pop_leaf_entry", "MutateHelper::delete_leaf_entries", "DeletedPairs::len", "BtreeHeader::new"]},
               {"unit": "rootins", "functions": ["MutateHelperI::insert"]},
-              {"unit": "bigpair", "functions": ["MutateHelper::insert_beside_large_value"]}],
+              {"unit": "bigpair", "functions": ["MutateHelper::insert_beside_large_value"]},
+              {"unit": "splice", "functions": ["MutateHelper::splice_path"]}],
     "kani": [K["C04-T1"], K["C04-L1f"], K["C04-L1v"], K["C04-L2"]],
     "native": [dict(NATIVE["X-leafmut4"], id="C04-X-leafmut4"), dict(NATIVE["X-leafmut5"], id="C04-X-leafmut5")],
     "assumptions": ["D1 (rootupd unit): the recursive descent (delete_helper) is an uninterpreted function of the root page and the key; a page built in this transaction is a function of its page number; push_all_except_deleted pushes the pairs of the leaf without the deleted ones; the helper's root / allocator references are held by value (rule RX drops the `*` of `*self.root`)", "G1 (guardmut unit): a leaf page is the sequence of pairs it holds (LeafAccessor reads it, LeafBuilder::build allocates a page holding exactly the pairs pushed), a branch page the log of child pointers written into it; the guard's root reference is held by value", "S1 (search unit): K::compare is a function of the two byte strings and a total order (reflexive, antisymmetric, transitive) - that it is the value order of each built-in key type is property C15; the n-th key / child of a page is an uninterpreted function of the page (key_unchecked, key, child_page are assumed to return it; the byte layout is checked by the bounded Kani harnesses C04-L1/L2); the keys of a page are strictly increasing (precondition `sorted`, property C10)"],
